@@ -177,6 +177,57 @@ theorem self_mul_inverse (heq : LawfulEq K) (names : ν × ν) (n : Nat) (h1 : 1
     simp only [hinv]
     exact Matrix.mul_nonsing_inv _ (isUnit_iff_ne_zero.mpr h0)
 
+/-- The same for `linear_algebra::inverse` / `Matrix::inverse`: present exactly for a square
+    matrix with non-zero determinant … -/
+theorem matrix_inverse_some_iff (heq : LawfulEq K) (m : EasyMl.Matrix K) (hinv : m.Inv) :
+    (∃ r, inverse m = .ok (some r)) ↔
+      m.rows = m.columns ∧
+        (Matrix.of fun i j : Fin m.rows => m.data.getD ((j : Nat) + (i : Nat) * m.columns) 0).det ≠ 0 := by
+  rw [inverse_eq_inverseTensor ((), ()) m hinv]
+  have h := inverse_some_iff heq ((), ()) (viewOfMatrix m) hinv.2.1
+  constructor
+  · rintro ⟨r, hr⟩
+    apply h.mp
+    cases hx : inverseTensor ((), ()) (viewOfMatrix m) with
+    | panic k => rw [hx] at hr; cases hr
+    | ok o =>
+      cases o with
+      | none => rw [hx] at hr; cases hr
+      | some t => exact ⟨t, rfl⟩
+  · intro hr
+    obtain ⟨t, ht⟩ := h.mpr hr
+    rw [ht]
+    exact ⟨_, rfl⟩
+
+/-- … and then it has the input's size and is a two-sided inverse. -/
+theorem matrix_inverse_mul (heq : LawfulEq K) (m r : EasyMl.Matrix K) (hinv : m.Inv)
+    (hsq : m.rows = m.columns) (h : inverse m = .ok (some r)) :
+    r.rows = m.rows ∧ r.columns = m.columns ∧
+      matOfList m.rows r.data
+          * (Matrix.of fun i j : Fin m.rows => m.data.getD ((j : Nat) + (i : Nat) * m.columns) 0) = 1 ∧
+      (Matrix.of fun i j : Fin m.rows => m.data.getD ((j : Nat) + (i : Nat) * m.columns) 0)
+          * matOfList m.rows r.data = 1 := by
+  rw [inverse_eq_inverseTensor ((), ()) m hinv] at h
+  have hv : viewOfMatrix m = ⟨m.rows, m.rows, (viewOfMatrix m).get⟩ := by
+    simp [viewOfMatrix, hsq]
+  cases hx : inverseTensor ((), ()) (viewOfMatrix m) with
+  | panic k => rw [hx] at h; cases h
+  | ok o =>
+    cases o with
+    | none => rw [hx] at h; cases h
+    | some t =>
+      rw [hx] at h
+      simp only [Outcome.ok.injEq, Option.some.injEq] at h
+      subst h
+      rw [hv] at hx
+      exact ⟨rfl, rfl, inverse_mul_self heq _ m.rows hinv.2.1 _ t hx,
+        self_mul_inverse heq _ m.rows hinv.2.1 _ t hx⟩
+
+/-- Non-vacuity: a square 2×2 rational matrix satisfying the invariant. -/
+example : (⟨[1, 2, 3, 4], 2, 2⟩ : EasyMl.Matrix ℚ).Inv ∧
+    (⟨[1, 2, 3, 4], 2, 2⟩ : EasyMl.Matrix ℚ).rows = (⟨[1, 2, 3, 4], 2, 2⟩ : EasyMl.Matrix ℚ).columns := by
+  refine ⟨⟨rfl, ?_, ?_⟩, rfl⟩ <;> decide
+
 /-- Non-vacuity of `LawfulEq` and of the determinant hypothesis: the rationals, a 2×2 matrix. -/
 example : LawfulEq ℚ := fun a b => by simp [NumOrd.eq]
 
